@@ -116,7 +116,9 @@ def _(value: Enum):
 @customize_repr
 def _(value: Flag):
     name = type(value).__qualname__
-    return " | ".join(f"{name}.{flag.name}" for flag in type(value) if flag in value)
+    return " | ".join(
+        f"{name}.{flag.name}" for flag in type(value) if flag in value
+    ) or f"{name}({value.value!r})"
 
 
 def sort_set_values(set_values):
